@@ -126,10 +126,17 @@ def validAddr (a : Addr) : Bool := a != 0
 /-- `is_admin` -/
 def isAdmin (s : State) (a : Addr) : Bool := s.admins.contains a
 
+/-- insertion sort (structural, so that concrete traces reduce by `decide`) -/
+def insertAsc (a : Nat) : List Nat → List Nat
+  | [] => [a]
+  | b :: rest => if a ≤ b then a :: b :: rest else b :: insertAsc a rest
+
+def sortAsc (l : List Nat) : List Nat := l.foldr insertAsc []
+
 /-- `sort_unstable(); dedup()` on the member strings (plain only). Harness names are fixed-length, so string
 order = id order. -/
 def sortDedup (l : List (Addr × Nat)) : List (Addr × Nat) :=
-  ((l.map (·.1)).mergeSort (fun a b => decide (a ≤ b))).eraseDups.map (fun a => (a, 1))
+  (sortAsc (l.map (·.1))).eraseDups.map (fun a => (a, 1))
 
 def whaleExceeded (whale : Option Nat) (c : Nat) : Bool :=
   match whale with
@@ -393,8 +400,12 @@ def run (v : Variant) (w : World) (ops : List Op) : World := ops.foldl (step' v)
 /-! ## queries -/
 
 /-- members of stage `k`, in storage (= address) order -/
+def insertPair (a : Addr × Nat) : List (Addr × Nat) → List (Addr × Nat)
+  | [] => [a]
+  | b :: rest => if a.1 ≤ b.1 then a :: b :: rest else b :: insertPair a rest
+
 def membersOf (s : State) (k : Nat) : List (Addr × Nat) :=
-  ((s.members.filter (fun m => m.1 == k)).map (fun m => (m.2.1, m.2.2))).mergeSort (fun a b => decide (a.1 ≤ b.1))
+  ((s.members.filter (fun m => m.1 == k)).map (fun m => (m.2.1, m.2.2))).foldr insertPair []
 
 /-- `query_has_member` of the list-based crates: the ACTIVE stage's map only; no active stage ⇒ `false` -/
 def hasMember (s : State) (now : Nat) (a : Addr) : Except Err Bool :=
